@@ -155,8 +155,10 @@ def run(A, rep, tier):
     det = "from_str does not return cls(path=…, name=match.group('name'))"
     if ok:
         kw = A.kwmap(r[0].value)
-        okn = "name" in kw and A.xtext(kw["name"], fs, stop=["match"]) == "match.group('name')"
+        okn = "name" in kw and A.xtext(kw["name"], fs, stop=["match"]).replace("match['name']", "match.group('name')") == "match.group('name')"
         pv = A.rvalues(fs, kw.get("path", ast.Constant(None)), r[0], keep=lambda a: a.startswith("none(") and a != "none(match)", depth=2, calls=True)
+        pv = [(c, v.replace("match['path']", "match.group('path')")) for c, v in pv]
+        pv = [(frozenset((a.replace("match['path']", "match.group('path')"), p_) for a, p_ in c), v) for c, v in pv]
         pv = [(c, v.replace("match.group('path')", "path_str")) for c, v in pv]
         pv = [(frozenset((a.replace("match.group('path')", "path_str"), p_) for a, p_ in c), v) for c, v in pv]
         # the segments are strings (from str.split): "non-empty" and "truthy" are the same filter
@@ -164,7 +166,7 @@ def run(A, rep, tier):
         alt = {(frozenset({("none(path_str)", True)}), "pathlib.Path()"),
                (frozenset({("none(path_str)", False)}), "pathlib.Path(*(_v0 for _v0 in path_str.split('/') if len(_v0) > 0))")}
         ps = A.single_def_value(fs, "path_str")
-        ok = okn and set(pv) == alt and (ps is None or norm(ps) == "match.group('path')")
+        ok = okn and set(pv) == alt and (ps is None or norm(ps).replace("match['path']", "match.group('path')") == "match.group('path')")
         det = "from_str builds the path as %s" % [(fmt_c(c), v) for c, v in pv]
     rep.check(ok, "RT-P", "parse form", fs.node, "parse splits the path group on '/' dropping only empty segments", det)
     # REL1
@@ -180,13 +182,21 @@ def run(A, rep, tier):
         o = [norm(s.value) for s in i.orelse if isinstance(s, ast.Assign)]
         ok = b == ["TaskIdentifier.from_relative_str(%s, %s.path)" % (dep, ident)] and o == ["TaskIdentifier.from_str(%s)" % dep]
         det = "relative branch %s / absolute branch %s" % (b, o)
+    elif not ifs:
+        # the same choice written as a conditional expression
+        ies = [i for i in walk_local(mt.node) if isinstance(i, ast.IfExp) and "is_relative_candidate" in norm(i.test)]
+        if len(ies) == 1 and isinstance(ies[0].test, ast.Call) and ies[0].test.args:
+            dep = norm(ies[0].test.args[0])
+            b, o = [norm(ies[0].body)], [norm(ies[0].orelse)]
+            ok = b == ["TaskIdentifier.from_relative_str(%s, %s.path)" % (dep, ident)] and o == ["TaskIdentifier.from_str(%s)" % dep]
+            det = "relative branch %s / absolute branch %s" % (b, o)
     rep.check(ok, "REL1", "':name' resolves against the listing file's directory", mt.node, "", det)
     rc = A.fn(TI + "is_relative_candidate")
     r = [x for x in walk_local(rc.node) if isinstance(x, ast.Return)]
     rep.check(len(r) == 1 and norm(r[0].value) == "%s.startswith(':')" % rc.params[0], "REL1", "relative iff starts with ':'", rc.node, "", "is_relative_candidate changed")
     fr = A.fn(TI + "from_relative_str")
     r = [x for x in walk_local(fr.node) if isinstance(x, ast.Return)]
-    rep.check(len(r) == 1 and norm(r[0].value) == "cls(%s, match.group('name'))" % fr.params[2], "REL1", "relative keeps the given directory", fr.node,
+    rep.check(len(r) == 1 and norm(r[0].value).replace("match['name']", "match.group('name')") == "cls(%s, match.group('name'))" % fr.params[2], "REL1", "relative keeps the given directory", fr.node,
               "", "from_relative_str does not build (given dir, matched name)")
     # HASH1
     eq = A.fn(TI + "__eq__")
